@@ -222,6 +222,7 @@ def run(ctx, rep):
     from props import _depfilter
     _depfilter.run(F, rep, "C07")
     fresh_cell_for_new_names_only(F, rep)
+    modify_targets_a_capture(F, rep)
 
     # ---- (a) ---------------------------------------------------------------------
     if _visit is not None:
@@ -295,3 +296,38 @@ def fresh_cell_for_new_names_only(F, rep):
                        "class members are stored into the fresh class-body frame during construction" if own_frame else
                        "a store_fast of a program name outside the forms this rule knows", span, fn=f.path, key=key)
     rep.floor("C07.fresh-cell store_fast emissions with a nameable operand", n, 3)
+
+
+
+def modify_targets_a_capture(F, rep):
+    """`modify x = v` is compiled to store_object, which writes into the variables the running function captured and fails in any other
+    function.  The name lookup that accepts the statement (`get_dependency_flags_from_name_skip_n`) answers two things: the identifier and
+    whether a function boundary was crossed to find it.  The statement may be accepted only on the `crossed` side: the second component of
+    the answer is tested and its false edge does not reach an Ok return."""
+    f = F.fn("compiler::ast::assignment::Assignment::can_modify_if_applicable")
+    if f is None:
+        raise AnchorMissing("Assignment::can_modify_if_applicable")
+    looks = f.calls_to("compiler::parser::AssocFileData::get_dependency_flags_from_name_skip_n")
+    if not looks:
+        rep.ob("C07.modify-target", "`modify` is accepted only for a name found beyond a function boundary", "undecided",
+               "the lookup in can_modify_if_applicable is no longer get_dependency_flags_from_name_skip_n", f.span, fn=f.path, key="C07.modify-target")
+        return
+    # locals holding component .1 (bool) of the looked-up pair
+    flags = []
+    for bi, si, dst, rv, s_ in f.assigns():
+        pl = mir.op_place(rv.get("use")) if "use" in rv else None
+        if pl and f.locals[dst["l"]] == "bool" and pl.get("p") and pl["p"][-1][0] == "field" and pl["p"][-1][1] == 1:
+            oc = rules.origin_calls(f, pl["l"], transparent=rules.TRANSPARENT | {rules.TRY_BRANCH, "anyhow::Context::context", "anyhow::Context::with_context"})
+            if any(o in looks for o in oc) or any(o.bb in {c.bb for c in looks} for o in oc):
+                flags.append(dst["l"])
+    if not flags:
+        rep.ob("C07.modify-target", "`modify` is accepted only for a name found beyond a function boundary", "violated",
+               "the lookup's `found beyond a function boundary` answer is discarded: `f = fn() { t = 0  if true { modify t = 1 } }` is accepted and "
+               "store_object fails at run time (`this function is not a callback`)", looks[0].span, fn=f.path, key="C07.modify-target")
+        return
+    # Ok returns reachable after the lookup while the flag is false
+    oks = [b for b in rules.ok_return_blocks(f) if any(b in f.reachable(c.target) for c in looks if c.target is not None)]
+    v, info = rules.guarded_by_bool(f, oks, flags, want=True)
+    rep.ob("C07.modify-target", "`modify` is accepted only for a name found beyond a function boundary", v,
+           "" if v == "ok" else "an Ok answer is reachable although the name was found inside the current function (%s)" % info, looks[0].span, fn=f.path,
+           key="C07.modify-target")
